@@ -192,6 +192,13 @@ MUTATIONS += [
     dict(id="C08-raw-writer-closed-before-flush", prop="C08", file=PK, old="        if !self.basic.is_empty() {\n            self.save()?;\n        }\n\n        self.file_writer.take().unwrap().finalize()?;\n", new="        let writer = self.file_writer.take().unwrap();\n        if !self.basic.is_empty() {\n            self.save()?;\n        }\n\n        writer.finalize()?;\n"),
 ]
 
+# ---- C04 key lookup
+KFILE = "crates/core/src/repofile/keyfile.rs"
+MUTATIONS += [
+    dict(id="C04-findkey-hint-ignored-id", prop="C04", file=KFILE, old="        Ok((key_from_backend(be, id, passwd)?, *id))", new="        Ok((key_from_backend(be, id, passwd)?, KeyId::default()))"),
+    dict(id="C04-findkey-returns-other-id", prop="C04", file=KFILE, old="                Ok(key) => return Ok((key, KeyId(id))),", new="                Ok(key) => return Ok((key, KeyId(Id::default()))),"),
+]
+
 HARMLESS = [
     dict(id="H-C05-trees-symlink-continue", prop="C05", file=CK, old="        for node in tree.nodes {\n            match node.node_type {", new="        for node in tree.nodes {\n            if node.node_type == NodeType::Symlink {\n                continue;\n            }\n            match node.node_type {"),
 ]
